@@ -257,6 +257,35 @@ def structure(case, vm=False):
         ob('omega1-no-entry-twice', len(allent) == len(set(allent)))
         allent2 = [(a, b) + tuple(np.round(np.asarray(dx, dtype=float), 6) + 0.0) for cl in om2 for (a, b), dx in cl]
         ob('omega2-no-entry-twice', len(allent2) == len(set(allent2)))
+        # regeneration history: networks asked of an object that was FIRST built with a smaller range, asked for its networks, and
+        # then regenerated must be the networks of a freshly built object (as sets of (initial state, final state, dx))
+        def canon(sset, net):
+            return sorted(sorted((S24.state_tuples([sset.states[a]])[0], S24.state_tuples([sset.states[b]])[0],
+                                  tuple(np.round(np.asarray(dx, dtype=float), 6) + 0.0)) for (a, b), dx in cl) for cl in net)
+        try:
+            if vm:
+                mk, chem_, cut_, nth_ = vm_configs()[case]
+                c2 = mk()
+                h = OnsagerCalc.VacancyMediated(c2, chem_, c2.sitelist(chem_), c2.jumpnetwork(chem_, cut_), max(1, nth_ - 1) if nth_ > 1 else nth_ + 1)
+                h.generate(nth_)
+                # the crystal object differs (same construction): compare through the states' integer tuples
+                same_hist = canon(h.kinetic, h.om1_jn) == canon(ss, om1) and canon(h.kinetic, h.om2_jn) == canon(ss, om2)
+            else:
+                h = stars.StarSet(jn, crys, chem, 1, originstates=OS)
+                h.jumpnetwork_omega1(), h.jumpnetwork_omega2()
+                h.generate(N, originstates=OS)
+                h1, h2 = h.jumpnetwork_omega1()[0], h.jumpnetwork_omega2()[0]
+                same_hist = canon(h, h1) == canon(ss, om1) and canon(h, h2) == canon(ss, om2)
+                g2 = stars.StarSet(jn, crys, chem, N, originstates=OS)
+                g2.jumpnetwork_omega1(), g2.jumpnetwork_omega2()
+                g2 += stars.StarSet(jn, crys, chem, 1, originstates=OS)
+                f3 = stars.StarSet(jn, crys, chem, N + 1, originstates=OS) if N < 3 else None
+                if f3 is not None:
+                    same_hist = same_hist and canon(g2, g2.jumpnetwork_omega1()[0]) == canon(f3, f3.jumpnetwork_omega1()[0]) and \
+                        canon(g2, g2.jumpnetwork_omega2()[0]) == canon(f3, f3.jumpnetwork_omega2()[0])
+        except Exception:
+            same_hist = False
+        ob('networks-after-regeneration-equal-fresh-networks', same_hist)
         if vm:
             # nothing that connects two outer (kinetic-only) stars survives the pruning; star pairs / jump types line up with the classes
             ok = all(not (ss.index[a] in outer and ss.index[b] in outer) for cl in om1 for (a, b), dx in cl)
@@ -268,8 +297,8 @@ def structure(case, vm=False):
     return fn
 
 
-QUICK = ['square-2', 'sc-2', 'hcp-2', 'honeycomb-2', 'rect2-2', 'oblique-c1-2', 'b2-2', 'diamond-2']
-THOROUGH = QUICK + ['square-3', 'fcc-2', 'omega-2', 'p222-2', 'tric-c1-2']
+QUICK = ['square-2', 'sc-2', 'hcp-2', 'honeycomb-2', 'rect2-2', 'oblique-c1-2', 'b2-2', 'diamond-2', 'fcc-2']
+THOROUGH = QUICK + ['square-3', 'omega-2', 'p222-2', 'tric-c1-2']
 VM_Q = ['square-1', 'rect2-1', 'square-2', 'rect23-2', 'rect17-2']
 VM_T = VM_Q + ['sc-1', 'rumple2d-1', 'rect23-1', 'tetra23-2']
 
